@@ -153,7 +153,7 @@ theorem c13_effect_requires_entitled_signer (wall : Nat) (s s' : State) (m : Msg
 its signatures are exactly those of the `GetSigners` of its top-level messages, each made with the
 signer's own key and current sequence, and every such signer is an address somebody can hold a key for
 (never a module account). -/
-theorem c13_tx_binds_signers (mode : Mode) (s s' : State) (tx : Tx) (h : ante Facts.anteOrder mode s tx = .ok s') :
+theorem c13_tx_binds_signers (mode : Mode) (hm : mode ≠ .recheck) (s s' : State) (tx : Tx) (h : ante Facts.anteOrder mode s tx = .ok s') :
     tx.signers = tx.required ∧ tx.sig = .ok ∧ tx.required.all isUserAddr = true ∧
     (∀ m ∈ tx.msgs, ∀ a, m.signer = some a → a ∈ tx.signers) := by
   have horder : Facts.anteOrder = ["SetUpContext", "ExtensionOptions", "ValidateBasic", "TxTimeoutHeight", "ValidateMemo",
@@ -165,7 +165,7 @@ theorem c13_tx_binds_signers (mode : Mode) (s s' : State) (tx : Tx) (h : ante Fa
   obtain ⟨_, _, _, _, _, _, _, _, _, _, s11, h11, s14, h14, _⟩ := h
   simp only [stepSetPubKey, bind_eq_ok, require_eq_ok, decide_eq_true_eq] at h11
   obtain ⟨_, hs, _, hu, _⟩ := h11
-  simp only [stepSigVerification, bind_eq_ok] at h14
+  simp only [stepSigVerificationR, hm, if_false, stepSigVerification, bind_eq_ok] at h14
   obtain ⟨_, _, h14⟩ := h14
   have hsig : tx.sig = .ok := by
     split at h14 <;> simp_all
